@@ -174,25 +174,14 @@ def run(ctx: Context, rep) -> None:
         "C03.walk",
         "shard infos are enumerated as: the list's own shard_files in list "
         "order, then every child list depth-first in list order")
-    w = ctx.fn("sedpack.io.dataset_base:DatasetBase._shard_info_iterator")
-    body = [s for s in w.node.body if not (isinstance(s, ast.Expr) and
-                                           isinstance(s.value, ast.Constant))]
-    ys = [i for i, s in enumerate(body) if isinstance(s, ast.Expr) and
-          isinstance(s.value, ast.YieldFrom) and ast.unparse(
-              s.value.value).endswith(".shard_files")]
-    fl = [i for i, s in enumerate(body) if isinstance(s, ast.For) and
-          ast.unparse(s.iter).endswith(".children_shard_lists")]
-    ok = len(ys) == 1 and len(fl) == 1 and ys[0] < fl[0]
-    if ok:
-        lp = body[fl[0]]
-        ok = len(lp.body) == 1 and isinstance(lp.body[0], ast.Expr) and \
-            isinstance(lp.body[0].value, ast.YieldFrom) and \
-            ctx.is_call(w, lp.body[0].value.value,
-                        method="_shard_info_iterator") and \
-            dotted(lp.body[0].value.value.args[0]) == dotted(lp.target)
+    from sa import collalg
+    from sa.rules.c02 import walk_terms
+    wt = walk_terms(ctx)
+    w = wt["w"]
+    ok = wt["obj"] is not None and wt["order"] and not \
+        collalg.reordering_on_path(wt["stream"])
     rep.ob("C03.walk", ok, loc=w.loc(), where=w.qualname,
-           construct="yield from shard_files; for child in children: yield "
-           "from walk(child)",
+           construct="yields " + collalg.pretty(wt["stream"])[:160],
            message="own shards first, then children depth-first, nothing "
            "skipped or reordered")
 
